@@ -16,7 +16,7 @@ from shapely.geometry import Polygon
 from vf import refmodel, specs
 from vf import strategies as S
 from vf.common import import_emsarray
-from vf.props._util import changed_variables, snapshot
+from vf.props._util import changed_variables, snapshot_of_case
 from vf.runner import Sub
 
 PROPERTY = "C06"
@@ -48,7 +48,7 @@ def check_spec(spec, ctx):
     with warnings.catch_warnings(record=True) as caught:
         warnings.simplefilter("always")
         ds = specs.build(spec)
-        before = snapshot(ds)
+        before = snapshot_of_case(spec, ds)
         conv = specs.bind_convention(spec, ds)
         ctx.at("C06.polygons")
         polygons = conv.polygons
@@ -223,7 +223,7 @@ def _check_synthesised(ctx, spec, conv, polygons, cells):
 
 
 def strategy(tier):
-    return S.dataset_spec(with_vars=False, modes=("raw", "raw", "decoded", "netcdf"),
+    return S.dataset_spec(with_vars=False, modes=("raw", "raw", "decoded", "netcdf", "dask", "file"),
                           geom_kwargs={"twist": True})
 
 
@@ -234,7 +234,7 @@ def cf1d_strategy(tier):
 
 
 def mesh_strategy(tier):
-    return S.dataset_spec(convs=["ugrid"], with_vars=False, modes=("raw", "decoded", "netcdf"),
+    return S.dataset_spec(convs=["ugrid"], with_vars=False, modes=("raw", "decoded", "netcdf", "dask", "file"),
                           geom_kwargs={"allow_overlap": True})
 
 
